@@ -57,6 +57,9 @@ type Case struct {
 	Wrap bool `json:"wrap,omitempty"`
 	// Expect: the upload announces Expect: 100-continue (the server builds the body stream on another path, after the interim response)
 	Expect bool `json:"expect,omitempty"`
+	// AfterBigBody: first another connection is served whose 100000-byte upload the handler collects with Request.Body()
+	// (the pooled request's body buffer has grown); MaxBody -1 = no body limit configured
+	AfterBigBody bool `json:"after_big_body,omitempty"`
 }
 
 // expander doubles every byte of r.
@@ -169,6 +172,10 @@ func (w *worker) server(maxBody int) *srvh.Server {
 	s := srvh.New(srvh.Opts{Streaming: true, MaxBody: maxBody})
 	s.BodyReader = func(ctx *app.RequestContext, r io.Reader, sn *srvh.Seen) {
 		cs, lg := w.cur, w.log
+		if sn.URI == "/grow" {
+			sn.Body = append([]byte(nil), ctx.Request.Body()...) // collects the stream into the request's body buffer
+			return
+		}
 		if sn.URI != "/upload" {
 			// probe (or a smuggled request): read whatever body it claims to have
 			b, _ := io.ReadAll(io.LimitReader(r, 1<<20))
@@ -269,6 +276,12 @@ func (w *worker) exec(c *mc.Ctx, cs Case) {
 		w.cur, w.log = &pre, &readLog{}
 		w.server(cs.MaxBody).Run([][]byte{ps[:bytes.Index(ps, []byte("\r\n\r\n"))+4+5]}, netsim.EndEOF, nil) // "...\r\n\r\n5\r\nhe"
 	}
+	if cs.AfterBigBody {
+		big := wire.Body(100000)
+		pre := Case{NoProbe: true}
+		w.cur, w.log = &pre, &readLog{}
+		w.server(cs.MaxBody).Run([][]byte{append([]byte(fmt.Sprintf("POST /grow HTTP/1.1\r\nHost: h\r\nContent-Length: %d\r\n\r\n", len(big))), big...)}, netsim.EndEOF, nil)
+	}
 	w.cur, w.log = &cs, &readLog{}
 	res := w.server(cs.MaxBody).Run(segs, netsim.EndEOF, nil)
 	lg := w.log
@@ -304,6 +317,12 @@ func (w *worker) exec(c *mc.Ctx, cs Case) {
 		}
 		if cs.Expect {
 			enc += "|expect-100-continue"
+		}
+		if cs.AfterBigBody {
+			enc += "|after-big-body"
+		}
+		if cs.MaxBody < 0 {
+			limit = "none"
 		}
 		c.Violate(fmt.Sprintf("%s|%s|limit=%s|stop=%s", kind, enc, limit, stopClass(cs)), msg, cs)
 	}
@@ -620,6 +639,11 @@ func cases(thorough bool) []Case {
 								}
 								if mb == 0 && rs == 4096 && stop == -1 {
 									out = append(out, Case{Len: n, Chunked: ch != nil, Chunks: ch, Trailer: tr, ReadSize: rs, Stop: stop, Seg: seg, Wrap: true})
+								}
+								if mb == 0 && rs == 4096 && !tr {
+									// no body limit at all, alone and after a connection that grew the pooled body buffer
+									out = append(out, Case{Len: n, Chunked: ch != nil, Chunks: ch, MaxBody: -1, ReadSize: rs, Stop: stop, Seg: seg},
+										Case{Len: n, Chunked: ch != nil, Chunks: ch, MaxBody: -1, ReadSize: rs, Stop: stop, Seg: seg, AfterBigBody: true})
 								}
 								if mb == 0 && rs == 4096 {
 									out = append(out, Case{Len: n, Chunked: ch != nil, Chunks: ch, Trailer: tr, ReadSize: rs, Stop: stop, Seg: seg, Expect: true})
